@@ -39,7 +39,20 @@ def invalid_by_construction():
         "bad-version-token": g.replace(b"HTTP/1.1", b"HTTX/1.1"), "asterisk-target": g.replace(p, b"*"),
         "plain-get": b"GET /api/jet/ HTTP/1.1\r\nHost: x\r\n\r\n", "connect-method": g.replace(b"GET", b"CONNECT"),
         "space-in-target": g.replace(p, b"/api/jet/ x"), "raw-jet-on-http-port": b"\x00\x00\x00\x18{\"id\":1,\"method\":\"info\"}",
+        # over-long request lines in which the target shows up again right where a reader with a 512 / 128 byte buffer starts its
+        # next piece (whatever is done with such a line, it is one request line with one target)
+        **{"long-request-line-target-again-%d" % n: b"GET /api/jet/" + b"a" * n + b"/api/jet/x HTTP/1.1\r\n" + g.split(b"\r\n", 1)[1]
+           for n in (96, 110, 113, 114, 115, 116, 127, 128, 480, 494, 497, 498, 499, 500, 511, 512, 1010)},
     }
+
+
+def class_of(name, d, max_msg):
+    """requests of invalid_by_construction() are invalid - except that an 'over-long' line is over-long only if it does not fit
+    into the reader's buffer of the configuration at hand"""
+    if name.startswith("long-request-line-target-again"):
+        n = d.index(b"\r\n") + 2
+        return "valid" if n < max_msg - 4 else "invalid" if n > max_msg + 4 else "unclear"
+    return "invalid"
 
 
 @scenario("http")
@@ -109,7 +122,7 @@ def http(case, res):
             for name, d in templates().items():
                 exchange(d, "valid", label=name)
             for name, d in invalid_by_construction().items():
-                exchange(d, "invalid", how=rng.choice(["eof", "rst"]), label=name)
+                exchange(d, class_of(name, d, S.max_msg), how=rng.choice(["eof", "rst"]), label=name)
         elif mode == "truncate":
             tn = prm.get("template", "canonical")
             d = templates()[tn]
@@ -165,9 +178,10 @@ def http(case, res):
                         data = tmpl[name]
                         c.hs_key = KEY
                     else:
-                        name, cls = rng.choice(sorted(inv)), "invalid"
+                        name = rng.choice(sorted(inv))
                         data = inv[name]
-                        c.hs_key = None
+                        cls = class_of(name, data, S.max_msg)
+                        c.hs_key = KEY if cls != "invalid" else None
                     if rng.random() < 0.8:
                         S.send_bytes(c, data, pick_chunks(rng))
                         sent = True
